@@ -119,3 +119,167 @@ Proof.
   apply update0_pool, inv0_run, inv0_init.
 Qed.
 Print Assumptions C12_v0_recheck_keeps_only_accepted.
+
+(* ------------------------------------------------------------------ v1 (TxMempool) *)
+
+Definition reach1 (cfg : config) (s : state1) : Prop :=
+  exists h pre post ops, s = run1 cfg (init1 h pre post) ops.
+
+Lemma reach1_inv : forall cfg s, reach1 cfg s -> Inv1 cfg s /\ StampsOk s.
+Proof.
+  intros cfg s [h [pre [post [ops ->]]]]. split.
+  - apply inv1_run, inv1_init.
+  - apply stamps_run, stamps_init.
+Qed.
+
+Theorem C12_v1_pool_nodup : forall cfg s, reach1 cfg s -> NoDup (pool1 s).
+Proof. intros cfg s R. apply (i1_nodup cfg), (reach1_inv cfg s R). Qed.
+Print Assumptions C12_v1_pool_nodup.
+
+Theorem C12_v1_pool_bounded : forall cfg s, reach1 cfg s ->
+  Z.of_nat (length (pool1 s)) <= Z.max 0 (cfg_size cfg) /\
+  sum_sizes (pool1 s) <= Z.max 0 (cfg_max_txs_bytes cfg).
+Proof.
+  intros cfg s R. destruct (reach1_inv cfg s R) as [I _].
+  rewrite pool1_length, <- (i1_bytes _ _ I). split; apply I.
+Qed.
+Print Assumptions C12_v1_pool_bounded.
+
+(* index_consistent: txByKey holds exactly the keys of the list; txBySender exactly the
+   non-empty senders of the list, each at most once (one transaction per sender); txsBytes is
+   the sum of the sizes; the cache holds each key once and at most CacheSize keys *)
+Theorem C12_v1_index_consistent : forall cfg s, reach1 cfg s ->
+  t_keys s = pool1 s /\ t_senders s = senders_of (t_txs s) /\ NoDup (senders_of (t_txs s)) /\
+  t_bytes s = sum_sizes (pool1 s) /\
+  NoDup (t_cache s) /\ Z.of_nat (length (t_cache s)) <= Z.max 0 (cfg_cache_size cfg).
+Proof.
+  intros cfg s R. destruct (reach1_inv cfg s R) as [I _].
+  destruct (i1_cache _ _ I) as [ND [Hz Hl]].
+  split; [apply I|]. split; [apply I|]. split; [rewrite <- (i1_senders _ _ I); apply I|].
+  split; [apply I|]. split; [assumption|].
+  destruct (Z_lt_le_dec 0 (cfg_cache_size cfg)) as [H|H]; [specialize (Hl H); lia|].
+  rewrite (Hz H). cbn. lia.
+Qed.
+Print Assumptions C12_v1_index_consistent.
+
+Theorem C12_v1_committed_gone_and_remembered : forall cfg s, reach1 cfg s ->
+  (forall h now blk pre post rv t, In t (map fst blk) ->
+     let s' := update1 cfg s h now blk pre post rv in
+     ~ In t (pool1 s') /\
+     (0 < cfg_cache_size cfg -> Z.of_nat (length blk) <= cfg_cache_size cfg ->
+      (forall code, In (t, code) blk -> code = 0) -> In t (t_cache s'))) /\
+  (forall t peer v, In t (t_cache s) ->
+     pool1 (fst (fst (checktx1 cfg s t peer v))) = pool1 s /\
+     snd (fst (checktx1 cfg s t peer v)) <> ENone /\ snd (checktx1 cfg s t peer v) = false).
+Proof.
+  intros cfg s R. destruct (reach1_inv cfg s R) as [I _]. split.
+  - intros h now blk pre post rv t Hin. cbv zeta. split.
+    + intro H. apply (update1_pool cfg s h now blk pre post rv t I) in H. tauto.
+    + intros. apply update1_cache_remembers; assumption.
+  - intros. apply checktx1_remembered; assumption.
+Qed.
+Print Assumptions C12_v1_committed_gone_and_remembered.
+
+(* reap order: a permutation of the pool sorted by priority descending, ties by arrival stamp
+   (stamps are strictly increasing along the arrival list); ReapMaxTxs(n) is its first
+   min(n, size) entries; ReapMaxBytesMaxGas(b, g) its maximal prefix within the limits *)
+Theorem C12_v1_reap_is_bounded_prefix : forall cfg s, reach1 cfg s ->
+  Permutation.Permutation (order1 s) (t_txs s) /\
+  Sorted.StronglySorted reap_le (order1 s) /\
+  Sorted.StronglySorted (fun a b => w_stamp a < w_stamp b) (t_txs s) /\
+  (forall n, (n < 0 -> reap_max_txs1 s n = map w_tx (order1 s)) /\
+             (0 <= n -> reap_max_txs1 s n = firstn (Z.to_nat n) (map w_tx (order1 s)) /\
+                        Z.of_nat (length (reap_max_txs1 s n)) = Z.min n (Z.of_nat (length (t_txs s))))) /\
+  (forall b g, exists k, (k <= length (order1 s))%nat /\
+     reap_max_bytes_gas1 s b g = firstn k (map w_tx (order1 s)) /\
+     (forall j, (1 <= j <= k)%nat ->
+        within b g (sum_proto w_tx (firstn j (order1 s))) (sum_gas w_gas (firstn j (order1 s)))) /\
+     ((k < length (order1 s))%nat ->
+        ~ within b g (sum_proto w_tx (firstn (S k) (order1 s))) (sum_gas w_gas (firstn (S k) (order1 s))))).
+Proof.
+  intros cfg s R. destruct (reach1_inv cfg s R) as [I [S _]].
+  split; [apply order1_perm|]. split; [apply order1_sorted|]. split; [assumption|]. split.
+  - intro n. apply reap_max_txs1_spec.
+  - intros b g. destruct (reap_bytes_gas_prefix w_tx w_gas b g (order1 s) 0 0) as [k [Hk [Er [Hw Hn]]]].
+    exists k. split; [assumption|]. split; [|split].
+    + unfold reap_max_bytes_gas1. rewrite Er. symmetry. apply firstn_map.
+    + intros j Hj. specialize (Hw j Hj). rewrite !Z.add_0_l in Hw. exact Hw.
+    + intro H. specialize (Hn H). rewrite !Z.add_0_l in Hn. exact Hn.
+Qed.
+Print Assumptions C12_v1_reap_is_bounded_prefix.
+
+(* recheck_keeps_only_accepted: whatever is in the pool after Update was there before, is not
+   in the block, was accepted in this recheck round (application answer and the post-check
+   filter now in force) when Recheck is on, and has not outlived a configured TTL *)
+Theorem C12_v1_recheck_keeps_only_accepted : forall cfg s, reach1 cfg s ->
+  forall h now blk pre post rv t, In t (pool1 (update1 cfg s h now blk pre post rv)) ->
+  In t (pool1 s) /\ ~ In t (map fst blk) /\
+  (cfg_recheck cfg = true -> accepted (set_checks (t_post s) post) (lookup_res rv t) = true) /\
+  (forall w, In w (t_txs s) -> w_tx w = t ->
+     expired1 cfg h now w = false \/ (cfg_ttl_blocks cfg =? 0) && (cfg_ttl_dur cfg =? 0) = true).
+Proof.
+  intros cfg s R h now blk pre post rv t H. destruct (reach1_inv cfg s R) as [I _].
+  apply (update1_pool cfg s h now blk pre post rv t I H).
+Qed.
+Print Assumptions C12_v1_recheck_keeps_only_accepted.
+
+(* eviction_sound: a transaction that leaves the pool during CheckTx had strictly lower
+   priority than the submitted one, which the application accepted, which was not in the pool
+   and is in it afterwards; the bounds and indexes still hold (C12_v1_pool_bounded,
+   C12_v1_index_consistent apply to the successor state) *)
+Theorem C12_v1_eviction_sound : forall cfg s, reach1 cfg s ->
+  forall t peer v w, In w (t_txs s) ->
+  ~ In (w_tx w) (pool1 (fst (fst (checktx1 cfg s t peer v)))) ->
+  w_prio w < v_prio v /\ accepted (t_post s) v = true /\
+  In t (pool1 (fst (fst (checktx1 cfg s t peer v)))) /\ ~ In t (pool1 s).
+Proof.
+  intros cfg s R t peer v w Hw Hg. destruct (reach1_inv cfg s R) as [I _].
+  apply (checktx1_eviction_sound cfg s t peer v w I Hw Hg).
+Qed.
+Print Assumptions C12_v1_eviction_sound.
+
+(* ------------------------------------------------------------------ non-vacuity: concrete
+   histories on which the hypotheses hold and the interesting branches are taken *)
+
+Definition ex_cfg : config :=
+  {| cfg_size := 4; cfg_max_txs_bytes := 100; cfg_max_tx_bytes := 10; cfg_cache_size := 1;
+     cfg_recheck := true; cfg_keep_invalid := false; cfg_ttl_blocks := 0; cfg_ttl_dur := 0 |}.
+Definition ex_ok (p : Z) : appres := {| v_code := 0; v_gas := 1; v_prio := p; v_sender := 0%N |}.
+Definition ta : tx := [1%N]. Definition tb : tx := [2%N; 2%N]. Definition tc : tx := [3%N; 3%N; 3%N].
+
+(* cache of one entry, pool of three, the first transaction submitted again (the F6 scenario):
+   the pool keeps it once; ReapMaxTxs(1) returns one transaction (F5); after committing [ta]
+   it is gone, remembered, and refused; a rejected recheck removes [tc] *)
+Definition ex_s0 : state0 :=
+  run0 ex_cfg (init0 0 None None)
+       [O0CheckTx ta 1 (ex_ok 0); O0CheckTx tb 1 (ex_ok 0); O0CheckTx tc 1 (ex_ok 0); O0CheckTx ta 2 (ex_ok 0)].
+Definition ex_s0' : state0 := update0 ex_cfg ex_s0 1 [(ta, 0)] None None [(tb, ex_ok 0)].
+
+Example C12_v0_nonvacuous :
+  pool0 ex_s0 = [ta; tb; tc] /\ s_cache ex_s0 = [ta] /\ s_bytes ex_s0 = 6 /\
+  reap_max_txs0 ex_s0 1 = [ta] /\ reap_max_bytes_gas0 ex_s0 8 (-1) = [ta; tb] /\
+  reap_max_bytes_gas0 ex_s0 (-1) 1 = [ta] /\
+  pool0 ex_s0' = [tb] /\ s_cache ex_s0' = [ta] /\
+  checktx0 ex_cfg ex_s0' ta 3 (ex_ok 0) = (ex_s0', EInCache, false).
+Proof. vm_compute. repeat split; reflexivity. Qed.
+
+(* v1, pool of two: a third transaction of higher priority evicts the lowest one, an equal
+   priority one is dropped; reaping is by priority then arrival; the same transaction coming
+   back after the cache forgot it (F12 scenario) is not inserted twice *)
+Definition ex_cfg1 : config :=
+  {| cfg_size := 2; cfg_max_txs_bytes := 100; cfg_max_tx_bytes := 10; cfg_cache_size := 1;
+     cfg_recheck := true; cfg_keep_invalid := false; cfg_ttl_blocks := 2; cfg_ttl_dur := 0 |}.
+Definition ex_s1 : state1 :=
+  run1 ex_cfg1 (init1 0 None None)
+       [O1CheckTx ta 1 (ex_ok 1); O1CheckTx tb 1 (ex_ok 2); O1CheckTx ta 2 (ex_ok 1)].
+Definition td : tx := [4%N].
+Definition ex_s1' : state1 := fst (fst (checktx1 ex_cfg1 ex_s1 td 1 (ex_ok 3))).
+
+Example C12_v1_nonvacuous :
+  pool1 ex_s1 = [ta; tb] /\ reap_max_txs1 ex_s1 (-1) = [tb; ta] /\ reap_max_txs1 ex_s1 1 = [tb] /\
+  pool1 ex_s1' = [tb; td] /\ reap_max_txs1 ex_s1' (-1) = [td; tb] /\ t_bytes ex_s1' = 3 /\
+  pool1 (fst (fst (checktx1 ex_cfg1 ex_s1' ta 1 (ex_ok 2)))) = [tb; td] /\
+  pool1 (fst (fst (checktx1 ex_cfg1 ex_s1 tc 1 (ex_ok 3)))) = [tc] /\
+  pool1 (update1 ex_cfg1 ex_s1' 1 0 [(tb, 0)] None None [(td, ex_ok 0)]) = [td] /\
+  pool1 (update1 ex_cfg1 ex_s1' 3 0 [] None None [(tb, ex_ok 0); (td, ex_ok 0)]) = [].
+Proof. vm_compute. repeat split; reflexivity. Qed.
